@@ -93,6 +93,7 @@ func main() {
 	repo := flag.String("repo", "/repo", "repository root (for -racerepo)")
 	par := flag.Int("par", 4, "concurrent runs")
 	ntraced := flag.Int("traced", 1000, "how many of the runs naming all packages record their scheduler trace")
+	withText := flag.Bool("text", true, "also compare two runs with the text formatter")
 	flag.Parse()
 	rnd := hx.NewRand(*seed)
 	env = hx.GoEnv()
@@ -157,10 +158,13 @@ func main() {
 			r.Trace = ""
 		}
 	}
-	tx0 := mk("text", 1, 0, []string{"./..."}, "text", true)
-	tx1 := mk("text", 16, 1+rnd.Uint64()%1000000, shuffled(rnd, allPats), "text", true)
-	if *ntraced < *nsame {
-		tx0.Trace, tx1.Trace = "", ""
+	tx0, tx1 := &Run{TimedOut: true}, &Run{TimedOut: true}
+	if *withText {
+		tx0 = mk("text", 1, 0, []string{"./..."}, "text", true)
+		tx1 = mk("text", 16, 1+rnd.Uint64()%1000000, shuffled(rnd, allPats), "text", true)
+		if *ntraced < *nsame {
+			tx0.Trace, tx1.Trace = "", ""
+		}
 	}
 	for i := 0; i < *npartial; i++ {
 		k := 1 + rnd.Intn(len(allPats)-1)
